@@ -16,7 +16,7 @@ LEVEL_TEXT = ("Static structural proof of necessary conditions: (R14.1) the 17 s
               "(schema, entry, attribute) call made by the runner; (R14.3) the three per-section passes iterate the "
               "section enum itself; (R14.4) error-context push/pop balanced. That released schemas pass and that a "
               "seeded fault is detected at every position are NOT decided.")
-LEVEL_EXTRA = "Added after the seeded evaluation: (R14.5) known/unknown of an attribute is decided against the valid-attribute table of the entry's own section. (R14.6) no issue list is discarded inside the compliance modules. (R14.7) attribute validators are skipped for attributes the entry's section does not declare. Added after the hunting pass: (R14.8) the key tested for an existing tag is one of the registered forms (a known finding today: repeated '#' children); (R14.9) per-library tables are consulted with the entry's own inLibrary value; (R14.10) NaN takes the conversion-factor report; (R14.11) the character pass guards the str use of raw attribute values. (R14.12) a deprecatedFrom equal to the schema version takes the report; (R14.13) the unknown-attribute report is conditional on nothing but the unknown attributes; (R14.14) default units are looked up on the entry under validation; (R14.15) schema_version_for_library can answer with withStandard; (R14.16) the inLibrary report is guarded by the membership test alone. (R14.17) the missing-item report of item_exists_check depends on the item lookup alone."
+LEVEL_EXTRA = "Added after the seeded evaluation: (R14.5) known/unknown of an attribute is decided against the valid-attribute table of the entry's own section. (R14.6) no issue list is discarded inside the compliance modules. (R14.7) attribute validators are skipped for attributes the entry's section does not declare. Added after the hunting pass: (R14.8) the key tested for an existing tag is one of the registered forms (a known finding today: repeated '#' children); (R14.9) per-library tables are consulted with the entry's own inLibrary value; (R14.10) NaN takes the conversion-factor report; (R14.11) the character pass guards the str use of raw attribute values. (R14.12) a deprecatedFrom equal to the schema version takes the report; (R14.13) the unknown-attribute report is conditional on nothing but the unknown attributes; (R14.14) default units are looked up on the entry under validation; (R14.15) schema_version_for_library can answer with withStandard; (R14.16) the inLibrary report is guarded by the membership test alone. (R14.17) the missing-item report of item_exists_check depends on the item lookup alone. (R14.18) the previous entry is looked up in the section of the entry under validation."
 
 SIG = ["hed_schema", "tag_entry", "attribute_name"]
 
@@ -543,6 +543,25 @@ def run(ctx):
                   "whether a nonexistent suggested/related tag, unit class or value class is reported depends on an attribute of the "
                   "entry that names it (%s): on such entries (e.g. deprecated ones) the fault passes unreported"
                   % (norm(bad[0].ast)[:60] if bad else ""), desc="missing-item test reached for every entry")
+
+    # ---------------- R14.18: an entry is compared with the entry of the same section in the previous release
+    ctx.rule("R14.18", "verify_tag_id looks the previous entry up in the section of the entry it validates")
+    vti = prog.find_class("HedIDValidator").methods.get("verify_tag_id")
+    if vti is None:
+        raise AnalysisError("anchor HedIDValidator.verify_tag_id vanished")
+    ctx.saw(vti)
+    n18 = 0
+    for c in walk_no_nested(vti.node):
+        if isinstance(c, ast.Call) and call_name(c) == "get_tag_entry":
+            n18 += 1
+            a = cg.arg(c, "key_class")
+            if a is None and id(c) not in cg.param_order and len(c.args) > 1:
+                a = c.args[1]
+            ctx.check(a is not None and "section_key" in norm(a), "R14.18", vti.qualname, c, loc(vti, c),
+                      "the previous release is searched without the section of the entry: units, unit classes, value classes, attributes "
+                      "and properties are looked up among the tags, so a changed hedId on them is never compared (and `foot`/`point` "
+                      "are matched against the tags Foot/Point)", desc="previous entry looked up in the entry's own section")
+    ctx.floor("R14.18", "previous-release lookups in verify_tag_id", n18, 1)
 
 
 def _unpack_names(node):
